@@ -9,7 +9,7 @@ BASELINE_OFF = ("cmake -G Ninja -B /repo/_build -S /repo >/dev/null && cmake --b
 
 # id -> dict(level, text, note, technique)
 # properties whose check is built, validated (3 seeds silent, mutants caught) and claimed
-READY = ["C01", "C02", "C03", "C04", "C05", "C07", "C08", "C09", "C10", "C11", "C12", "C13", "C14", "C15", "C16", "C17", "C18", "C19", "C20"]
+READY = ["C01", "C02", "C03", "C04", "C05", "C06", "C07", "C08", "C09", "C10", "C11", "C12", "C13", "C14", "C15", "C16", "C17", "C18", "C19", "C20"]
 
 CHECKS = {
     "C01": dict(
@@ -75,6 +75,19 @@ CHECKS = {
         note="Process-crash model as the property states it (data handed to the OS survives; fsync is recorded, not executed). Exhaustive per history over the cuts enumerated (reported per history in the evidence); "
              "writes larger than the every-byte limit get sampled cuts. TTL keys use far-future expiries so expiry does not blur the admissible set (expiry semantics are C12's).",
         technique="fault enumeration by trace replay: recorded file-operation trace cut at every boundary/byte, recovery in a child process, independent admissible-state oracle, ASan"),
+    "C06": dict(
+        level="exploration",
+        text="Histories on a real Transport::udp with 1-2 listeners and 2-8 raw UDP peers on 127.0.0.1 / ::1 (30-70 seeded steps: peer batches to listeners and to connected sessions, foreign peers, "
+             "sends on open/closed/unknown sessions, several destinations queued under an injected EAGAIN burst, connect, connectViaListener biased to peers that already have a receiving session, "
+             "closes biased to OTHER sessions of such a peer, error closes, idle expiry with real 1 s timeouts, a second sending thread). Every datagram carries (origin, id, length, checksum) plus "
+             "a regenerated body, sizes 1..65507 boundary-biased; raw sockets log (src, dst, payload) on the wire, the transport side logs (event, sid, remote address, payload). An offline checker "
+             "without any iora include requires: wire datagrams from iora are a sub-multiset of accepted sends, byte-identical, to the session's peer; every datagram the kernel delivered appears as "
+             "exactly one data event with identical bytes on a session of that source address; between accept(sid,P) and close(sid) every datagram from P arrives on sid with no second accept, "
+             "whatever other sessions are closed or expire. plain+asan (quick), +tsan (thorough).",
+        note="Real EAGAIN is unreachable on loopback (the skb is orphaned inside sendto), so the queue paths are reached by answering a seeded burst of iora's own send/sendto calls with EAGAIN (a legal kernel "
+             "answer; payloads never altered). Kernel drops (SO_RXQ_OVFL, /proc/net/udp) make a history inconclusive for the loss rule, never a violation. Peers are indexed by address only, so delivery on a session "
+             "of the other listener is tolerated.",
+        technique="runtime monitoring: tagged datagrams logged at raw sockets vs transport events, offline history checker, EAGAIN injection, ASan/TSan"),
     "C07": dict(
         level="fault_enumeration",
         text="A pruned 511-cell configuration matrix (verify on/off x trust anchor x server certificate x client certificate x protocol ceiling x peer kind x entry point "
